@@ -134,6 +134,104 @@ def observe(st):
     return ob
 
 
+# ------------------------------------------------------------------ random documents x extreme values
+BIG = 10 ** 400
+RVALS = [0, 1, -1, 0.5, -0.0, 1e308, -1e308, 5e-324, 2 ** 53 + 1, BIG, -BIG, 2 ** 1024 - 1, 1e-300, "", "a", "\0",
+         "(((", "9" * 30, "a" * 3000, [BIG, 0.5], [1e308, "a"], {"a": BIG}, {"a": 0.5, "b": [BIG]}, {"": 1},
+         {"\0": BIG}, [[[0.5]]], [{"a": "9" * 30}], None, True, False, [1, 1.0, True], [[], []], [{}, {}],
+         {"a": {"a": {"a": BIG}}}, 1.5, 3.0, 7, "1990-12-31T15:59:59Z", "ab"]
+
+
+def _sprinkle(d, rng):
+    """put numbers from outside the comfortable range into the numeric keywords of a document"""
+    if isinstance(d, dict):
+        for k in list(d):
+            if k in ("minimum", "maximum", "exclusiveMinimum", "exclusiveMaximum") and rng.random() < 0.5:
+                d[k] = rng.choice([BIG, -BIG, 1e308, 5e-324, 0.5, 2 ** 1024 - 1])
+            elif k == "multipleOf" and rng.random() < 0.7:
+                d[k] = rng.choice([BIG, 1e-300, 5e-324, 0.5, 3, 3.0, 1e308, 2 ** 1024 - 1, 7])
+            elif k == "const" and rng.random() < 0.3:
+                d[k] = rng.choice(RVALS)
+            elif k == "enum" and rng.random() < 0.3:
+                d[k] = [rng.choice(RVALS) for _ in range(3)]
+            else:
+                _sprinkle(d[k], rng)
+    elif isinstance(d, list):
+        for x in d:
+            _sprinkle(x, rng)
+
+
+def _rand_observe(doc):
+    from statham.schema.parser import parse_element
+    from statham.schema.exceptions import SchemaParseError, FeatureNotImplementedError
+    out = []
+    signal.signal(signal.SIGALRM, _alarm)
+    signal.alarm(60)
+    try:
+        try:
+            el = parse_element(drive.label(doc))
+        except FeatureNotImplementedError:
+            return [("notimpl", "none", True, None)]
+        except SchemaParseError:
+            return [("parseerr", "none", True, None)]
+        except _Timeout:
+            raise
+        except Exception as exc:  # noqa
+            return [("other:" + type(exc).__name__, "none", True, None)]
+        for vi, v in enumerate(RVALS):
+            k, _r = drive.call(el, v)
+            out.append(("ok", k, True, vi))
+    except _Timeout:
+        out.append(("ok", "none", False, None))
+    finally:
+        signal.alarm(0)
+    return out
+
+
+def random_extremes(rep, tier):
+    """documents from the independent generator (randdocs.py) with extreme numbers sprinkled into
+    their numeric keywords, called on values outside the comfortable range; every distinct
+    (parse outcome, call outcome, terminated) is adjudicated by Trace_Extreme (R_C10)."""
+    import os
+    import random
+    import randdocs
+    seed = int(os.environ.get("VERIF_SEED", "0"))
+    n = 400 if tier == "quick" else 6000
+    docs = randdocs.documents(1000 + seed, n, depth=3)
+    rng = random.Random(seed)
+    for d in docs:
+        _sprinkle(d, rng)
+    common.use_repo()
+    obs = drive.pmap(_rand_observe, docs, chunksize=16)
+    kinds = {}
+    calls = 0
+    for doc, rows in zip(docs, obs):
+        for parse, call, term, vi in rows:
+            calls += 1
+            kinds.setdefault((parse, call, term), (doc, vi))
+    events = [(i + 1, '[id |-> %d, p |-> "C10", parse |-> %s, call |-> %s, terminated |-> %s]'
+               % (i + 1, codec.tla_str(k[0]), codec.tla_str(k[1]), "TRUE" if k[2] else "FALSE"))
+              for i, k in enumerate(kinds)]
+    data = ("---- MODULE TraceData ----\nEXTENDS Integers, Sequences, TLC\nEvents == <<\n"
+            + ",\n".join(t for _, t in events) + "\n>>\n====\n")
+    r2 = run_tlc("Trace_Extreme", "SPECIFICATION Spec\nINVARIANT Inv\nPOSTCONDITION Consumed\nCHECK_DEADLOCK FALSE\n",
+                 extra_modules={"TraceData": data}, workers=1, coverage=False)
+    if not r2.ok:
+        raise MachineryError("Trace_Extreme failed:\n" + r2.raw_tail[-2000:])
+    klist = list(kinds)
+    for l in r2.lines:
+        k = klist[l["reject"] - 1]
+        doc, vi = kinds[k]
+        real = k[0] if k[0] != "ok" else k[1]
+        what = "does not terminate within 60 s" if not k[2] else f"{real} escapes"
+        rep.violation(("C10", "random-extreme", real.split(":")[-1]),
+                      f"{what}: schema {json.dumps(doc, default=_srepr)[:300]}"
+                      + (f" value {_srepr(RVALS[vi])}" if vi is not None else ""),
+                      dict(state=dict(doc=json.loads(json.dumps(doc, default=_srepr)), value_index=vi)))
+    return dict(random_extreme_documents=len(docs), random_extreme_calls=calls,
+                random_extreme_outcome_kinds=sorted("/".join(map(str, k)) for k in kinds))
+
+
 def _exact_expected(case):
     """exact rational arithmetic for the table ExpectedAccept of Extreme.tla (machinery check)"""
     from fractions import Fraction
